@@ -34,8 +34,8 @@ from symx.core import Ctx, cur
 from symx.values import SInt
 
 _ANP = AbsNp()
-MARK = {'float': 1.5, 'int': 2, 'bool': True, 'str': 'ab', 'float32': 1.5, 'int8': 2, 'U1': 'a'}
-NPDT = {'float': float, 'int': int, 'bool': bool, 'str': '<U3', 'float32': np.float32, 'int8': np.int8, 'U1': '<U1'}
+MARK = {'float': 1.5, 'int': 2, 'bool': True, 'str': 'ab', 'float32': 1.5, 'int8': 2, 'U1': 'a', 'strlong': 'abcdefgh'}
+NPDT = {'float': float, 'int': int, 'bool': bool, 'str': '<U3', 'float32': np.float32, 'int8': np.int8, 'U1': '<U1', 'strlong': '<U8'}
 
 
 @contextlib.contextmanager
@@ -50,6 +50,13 @@ def shimmed():
 
 
 class M2(fsic.BaseModel):
+    ENDOGENOUS = ['X']
+    EXOGENOUS = ['W']
+    NAMES = ENDOGENOUS + EXOGENOUS
+    CHECK = ENDOGENOUS
+
+
+class L2(fsic.BaseLinker):
     ENDOGENOUS = ['X']
     EXOGENOUS = ['W']
     NAMES = ENDOGENOUS + EXOGENOUS
@@ -90,6 +97,10 @@ def _make(cfg, symbolic: bool):
         c = VectorContainer(span, strict=cfg['strict'])
         for n, k in zip(names, cfg['kinds']):
             c.add_variable(n, MARK[k], dtype=NPDT[k])
+    elif cfg['cls'] == 'linker':
+        # a linker is a container too; strict is handed to the CONSTRUCTOR (not switched on afterwards)
+        c = L2({'A': M2(span)}, strict=cfg['strict']) if L else L2(None, span=span, strict=cfg['strict'])
+        names = ['status', 'iterations', 'X', 'W']
     else:
         c = M2(span, strict=cfg['strict'])
         names = ['status', 'iterations', 'X', 'W']
@@ -265,8 +276,10 @@ def scenario(cfg, symbolic: bool, dims: Optional[dict] = None) -> List[str]:
     # values / size
     if True:
         k = len(c.index) if cfg['cls'] == 'container' else len(c.names)
-        if c.size != k * L:
-            bad.append(f'size {c.size} != {k} x {L}')
+        # (a linker's size counts its own variables plus those of its submodels)
+        sub_size = sum(m_.size for m_ in c.__dict__.get('submodels', {}).values()) if cfg['cls'] == 'linker' else 0
+        if c.size != k * L + sub_size:
+            bad.append(f'size {c.size} != {k} x {L}' + (f' + {sub_size} (submodels)' if sub_size else ''))
         if symbolic:
             with shimmed():
                 v = _run(lambda: c.values)
@@ -320,7 +333,11 @@ def explore9(cfg: dict) -> dict:
             cb = scenario(cfg, False, dims)
             res['witness_checked'] += 1
             if cb:
-                res['witness_bad'].append({'inputs': dims, 'concrete_bad': cb, 'symbolic_impl': 'ok', 'concrete_impl': 'bad'})
+                # the real code on real NumPy breaks the oracle at this path's witness although the abstract arrays did not
+                # show it (the abstraction does not carry string widths / value-dependent dtype promotion): a concrete,
+                # reproduced violation all the same -- reported as one, and flagged as found by the witness
+                res['candidates'].append({'symbolic': ['(not visible on abstract arrays; found by the concrete path witness)'], 'inputs': dims,
+                                          'replay': {'bad': cb, 'impl': None, 'ref': None}})
     res['exhausted'] = ctx.exhausted
     res['smt_samples'] = list(ctx.samples)
     res['stats'] = ctx.stats.as_dict()
@@ -340,6 +357,22 @@ def configs(tier: str):
     # same family, different width (a dtype-preserving container must cast these back)
     operands += [('arr', 1, 'float32'), ('arr', 1, 'int8'), ('arr', 1, 'U1'), ('arr', 2, 'float32')]
     kinds_sets = [('float', 'int'), ('bool', 'str'), ('int', 'float')]
+    # a string series keeps its width: a longer string is cut, never the series widened (value-dependent dtype changes)
+    for L in (1, 2, 3):
+        for od in (('scalar', 'strlong'), ('scalar', 'str'), ('arr', 1, 'str'), ('arr', 0, 'str')):
+            for op in ('attr_set', 'item_set', 'replace_values', 'label_set', 'slice_set', 'values_scalar'):
+                if op == 'values_scalar' and od[0] != 'scalar':
+                    continue
+                out.append(cfg9(cls='container', L=L, kinds=('U1', 'str'), strict=False, op=op, operand=od, lab=0, step=None))
+                out.append(cfg9(cls='container', L=L, kinds=('str', 'U1'), strict=False, op=op, operand=od, lab=0, step=None))
+    # linkers made strict through the constructor
+    for L in (1, 2):
+        for strict in (False, True):
+            for od in (('scalar', 'float'), ('seq', 1, 'float')):
+                for op in ('attr_set', 'item_set', 'replace_values', 'attr_new', 'attr_lifecycle', 'toggle_strict', 'add_attribute'):
+                    if od[0] != 'scalar' and op in ('attr_new', 'attr_lifecycle', 'toggle_strict', 'add_attribute'):
+                        continue
+                    out.append(cfg9(cls='linker', L=L, kinds=('float', 'float'), strict=strict, op=op, operand=od if op not in ('toggle_strict', 'add_attribute') else None))
     for cls in ('container', 'model'):
         for L in Ls:
             for strict in (False, True):
